@@ -21,7 +21,8 @@ SPECS = {
     "quick": [spec(k, P, bound=1) for k in ("count2", "scan2", "nested", "fly1", "tworuns", "bare", "grid22s")]
     + [spec(k, P, bound=1, ri=1) for k in ("count2", "nested", "tiny")]
     + [spec("monitor2", P, bound=1), spec("monitor2", P, bound=1, ri=1), spec("monitor1", P + PUT, bound=1), spec("flyonly", P, bound=1)]
-    + [spec("linear", P, bound=1, seq=s) for s in ("or-cp-rwF-crs-rwT-n-sl-crs-cr", "or-cp-crs-rwF-crs-crs-rwT-sl-n-crs-cr", "or-rwF-cp-crs-n-rwT-set-crs-cr")],
+    + [spec("linear", P, bound=1, seq=s) for s in ("or-cp-rwF-crs-rwT-n-sl-crs-cr", "or-cp-crs-rwF-crs-crs-rwT-sl-n-crs-cr", "or-rwF-cp-crs-n-rwT-set-crs-cr")]
+    + [spec("tiny", P, bound=2, ri=ri) for ri in (0, 1)],  # every pair of interruptions (and every decision) on the smallest run
     "thorough": [spec("monitor2", P, bound=2, ri=ri) for ri in (0, 1)]
     + [spec("flyonly", P, bound=2)]
     + [spec(k, P, bound=1, a=a) for k in ("count2", "scan2", "nested", "fly1", "tworuns", "bare", "grid22s", "cleanup", "baseline") for a in (0, 1)]
